@@ -296,7 +296,7 @@ Definition tstep0 (t c : nat) (g : glob) (l : loc) : option (glob * loc * list e
       | AcLoad => Some (g', goto L_rdb, es)
       end
     end
-  (* load(): T newObj(*handle); return newObj; ~handle *)
+  (* load(): copy-construct newObj from the handle; return newObj; ~handle *)
   | L_rdb => let '(g', es) := rd_begin g in Some (g', goto L_rde, es)
   | L_rde => let '(g', es) := rd_end g in Some (g', goto (L_unlock (pay g)), es)
   | L_unlock v => let '(g', es) := rel_shared g in Some (g', goto Idle, es ++ [ret v])
